@@ -235,6 +235,36 @@ func runC14(o *out, r *rng, thorough bool, rp string) {
 		o.count("chain-keys", fmt.Sprint(ci), true)
 	}
 
+	// tipset keys at the documented boundary (TipsetKeyMaxLen = 20 CIDs of 38 bytes): every byte of the key, the last ones
+	// included, is bound by the signed bytes, the chain key and the payload signed for a vote on the chain
+	for _, kl := range []int{1, 37, 38, 255, 256, 257, gpbft.TipsetKeyMaxLen - 3, gpbft.TipsetKeyMaxLen - 2, gpbft.TipsetKeyMaxLen - 1, gpbft.TipsetKeyMaxLen} {
+		key := make([]byte, kl)
+		for i := range key {
+			key[i] = byte(r.intn(256))
+		}
+		ts := &gpbft.TipSet{Epoch: int64(r.intn(1000)), Key: key, PowerTable: ptCid}
+		b0 := ts.MarshalForSigning()
+		c0 := (&gpbft.ECChain{TipSets: []*gpbft.TipSet{ts}}).Key()
+		for back := 1; back <= 4 && back <= kl; back++ {
+			k2 := append([]byte{}, key...)
+			k2[kl-back] ^= byte(1 + r.intn(255))
+			t2 := &gpbft.TipSet{Epoch: ts.Epoch, Key: k2, PowerTable: ptCid}
+			in := map[string]any{"key_len": kl, "changed_byte": kl - back}
+			if bytes.Equal(t2.MarshalForSigning(), b0) {
+				o.violate("the signed bytes change whenever any tipset's key changes", "c14-tipset-key-byte-unbound", in, "two tipsets differing in one key byte marshal identically for signing")
+			}
+			if (&gpbft.ECChain{TipSets: []*gpbft.TipSet{t2}}).Key() == c0 {
+				o.violate("the chain key changes whenever any tipset's key changes", "c14-key-insensitive", in, "two chains differing in one tipset key byte have the same chain key")
+			}
+		}
+		var kb bytes.Buffer
+		_ = cbg.WriteByteArray(&kb, ts.Key)
+		tsCid := gpbft.MakeCid(kb.Bytes())
+		o.coqCase(fmt.Sprintf("boundary tipset key_len=%d", kl), fmt.Sprintf("bytes_eqb (marshal_tipset (%d) %s %s %s) %s",
+			ts.Epoch, bytesTerm(ts.Commitments[:]), bytesTerm(tsCid.Bytes()), bytesTerm(ts.PowerTable.Bytes()), bytesTerm(b0)))
+		o.count("tipset-key-boundary", fmt.Sprint(kl), true)
+	}
+
 	// ---------- (A) signing payloads ----------
 	np := 60
 	if thorough {
@@ -274,10 +304,14 @@ func runC14(o *out, r *rng, thorough bool, rp string) {
 		}
 		for _, pt := range []pert{
 			{"network", func(p *gpbft.Payload, nn *gpbft.NetworkName, k *gpbft.ECChainKey) { *nn = *nn + "x" }},
-			{"instance", func(p *gpbft.Payload, nn *gpbft.NetworkName, k *gpbft.ECChainKey) { p.Instance ^= 1 << uint(r.intn(64)) }},
+			{"instance", func(p *gpbft.Payload, nn *gpbft.NetworkName, k *gpbft.ECChainKey) {
+				p.Instance ^= 1 << uint(r.intn(64))
+			}},
 			{"round", func(p *gpbft.Payload, nn *gpbft.NetworkName, k *gpbft.ECChainKey) { p.Round ^= 1 << uint(r.intn(64)) }},
 			{"phase", func(p *gpbft.Payload, nn *gpbft.NetworkName, k *gpbft.ECChainKey) { p.Phase = (p.Phase + 1) % 7 }},
-			{"commitments", func(p *gpbft.Payload, nn *gpbft.NetworkName, k *gpbft.ECChainKey) { p.SupplementalData.Commitments[r.intn(32)] ^= 1 }},
+			{"commitments", func(p *gpbft.Payload, nn *gpbft.NetworkName, k *gpbft.ECChainKey) {
+				p.SupplementalData.Commitments[r.intn(32)] ^= 1
+			}},
 			{"power-table", func(p *gpbft.Payload, nn *gpbft.NetworkName, k *gpbft.ECChainKey) {
 				p.SupplementalData.PowerTable = gpbft.MakeCid([]byte("another"))
 			}},
@@ -726,7 +760,9 @@ func runCodecs(o *out, r *rng, thorough bool) {
 		}
 	}
 	// a zstd bomb: 64 MiB of zeros compresses to a few KiB; decoding must fail within the 1 MiB bound
-	if zenc, ok := any(zs).(interface{ Encode(*gpbft.PartialGMessage) ([]byte, error) }); ok {
+	if zenc, ok := any(zs).(interface {
+		Encode(*gpbft.PartialGMessage) ([]byte, error)
+	}); ok {
 		_ = zenc
 	}
 	bomb := zstdBomb()
